@@ -1,17 +1,55 @@
-use rv::checks::c19::Mem3;
-use rv::fmt::*;
-use std::sync::{Arc, Mutex};
+// scratch probe: randomized -- durable commits, a pending non-durable commit, a caught panic inside a write
+// transaction, then check_integrity() twice, at a given page size
+use redb::{Database, Durability, TableDefinition, ReadableDatabase, ReadableTable};
+use redb::backends::InMemoryBackend;
+const T: TableDefinition<u64, &[u8]> = TableDefinition::new("t");
+fn rnd(s: &mut u64) -> u64 { *s ^= *s << 13; *s ^= *s >> 7; *s ^= *s << 17; *s }
+
 fn main() {
-    for p in std::env::args().skip(1) {
-        let img = std::fs::read(&p).unwrap();
-        let Ok((f, d)) = check_image(&img, false) else { println!("{p}: undecodable"); continue };
-        let Some(a) = f.alloc_state.as_ref() else { println!("{p}: no alloc state (crash image)"); continue };
-        let lens: Vec<u32> = a.regions.iter().map(|r| BuddyImage::parse(r).unwrap().num_pages).collect();
-        let m = Mem3(Arc::new(Mutex::new(img.clone())));
-        let r = std::panic::catch_unwind(|| {
-            let mut db = redb3::Database::builder().create_with_backend(m.clone()).unwrap();
-            db.check_integrity().map_err(|e| e.to_string())
-        });
-        println!("{p}: file pages {} saved allocator pages {:?} -> 3.0.0 check_integrity {:?}", d.layout.trailing_pages, lens, r.ok());
+    let ps: usize = std::env::args().nth(1).and_then(|s| s.parse().ok()).unwrap_or(4096);
+    let mut bad = 0;
+    for case in 0..3000u64 {
+        let mut s = 0x9E3779B97F4A7C15u64 ^ (case * 77 + 1);
+        let r = std::panic::catch_unwind(std::panic::AssertUnwindSafe(|| {
+            let mut b = Database::builder();
+            b.verif_set_page_size(ps);
+            b.set_cache_size([0usize, 4096, 1 << 20][(case % 3) as usize]);
+            let mut db = b.create_with_backend(InMemoryBackend::new()).unwrap();
+            let mut model = std::collections::BTreeMap::new();
+            let mut write = |db: &Database, durable: bool, s: &mut u64, model: &mut std::collections::BTreeMap<u64, Vec<u8>>| {
+                let mut txn = db.begin_write().unwrap();
+                if !durable { txn.set_durability(Durability::None).unwrap(); }
+                { let mut t = txn.open_table(T).unwrap();
+                  for _ in 0..(rnd(s) % 60) {
+                    let k = rnd(s) % 300;
+                    if rnd(s) % 3 == 0 { t.remove(k).unwrap(); model.remove(&k); }
+                    else { let v = vec![(k % 251) as u8; (rnd(s) % (ps as u64 / 2)) as usize]; t.insert(k, v.as_slice()).unwrap(); model.insert(k, v); }
+                  } }
+                txn.commit().unwrap();
+            };
+            for _ in 0..(1 + rnd(&mut s) % 4) { write(&db, true, &mut s, &mut model); }
+            for _ in 0..(1 + rnd(&mut s) % 3) { write(&db, false, &mut s, &mut model); }
+            let r = std::panic::catch_unwind(std::panic::AssertUnwindSafe(|| {
+                let txn = db.begin_write().unwrap();
+                let mut t = txn.open_table(T).unwrap();
+                for _ in 0..(1 + rnd(&mut s) % 80) { let k = 1000 + rnd(&mut s) % 300; t.insert(k, vec![9u8; (rnd(&mut s) % (ps as u64 / 2)) as usize].as_slice()).unwrap(); }
+                drop(t);
+                panic!("application bug");
+            }));
+            assert!(r.is_err());
+            let a = db.check_integrity();
+            let b = db.check_integrity();
+            let rt = db.begin_read().unwrap();
+            let t = rt.open_table(T).unwrap();
+            let got: std::collections::BTreeMap<u64, Vec<u8>> = t.iter().unwrap().map(|e| { let (k, v) = e.unwrap(); (k.value(), v.value().to_vec()) }).collect();
+            (format!("{a:?} {b:?}"), got == model)
+        }));
+        match r {
+            Ok((s, same)) if s == "Ok(false) Ok(true)" && same => {}
+            Ok((s, same)) if s == "Ok(true) Ok(true)" && same => {}
+            Ok((s, same)) => { bad += 1; if bad < 6 { println!("case {case}: check_integrity x2 = {s}; contents intact = {same}"); } }
+            Err(e) => { bad += 1; if bad < 6 { println!("case {case}: panic {:?}", e.downcast_ref::<String>().cloned().or_else(|| e.downcast_ref::<&str>().map(|s| s.to_string()))); } }
+        }
     }
+    println!("page size {ps}: {bad} bad cases of 3000");
 }
